@@ -599,6 +599,16 @@ func (d *deepCtx) describe(s *site, sum *summary) (string, string) {
 		sort.Strings(l)
 		return strings.Join(l, "; ")
 	}
+	// `x = payload; break`: the payload of whichever entry comes first
+	if len(s.rs.Body.List) == 2 && len(c.bad) == 0 {
+		as, ok1 := s.rs.Body.List[0].(*ast.AssignStmt)
+		br, ok2 := s.rs.Body.List[1].(*ast.BranchStmt)
+		if ok1 && ok2 && br.Tok == token.BREAK && br.Label == nil && as.Tok == token.ASSIGN && len(as.Lhs) == 1 && len(as.Rhs) == 1 {
+			if id, ok := as.Lhs[0].(*ast.Ident); ok && len(effs) == 1 && effs[0] == "outer:"+id.Name {
+				return ".firstPayload " + q(id.Name), "takes " + c.text(as.Rhs[0]) + " of whichever entry comes first: needs equal payloads"
+			}
+		}
+	}
 	switch {
 	case exits && onlyContinueOuter && len(effs) == 0 && len(c.bad) == 0:
 		return ".anyHit", "no effect; leaves to an outer label on a hit"
